@@ -551,7 +551,9 @@ PROPS["C10"] = {
             "change_delegated_targets, under another role which is then re-signed with its own keys; in half of these programs "
             "the holder publishes an update (genuine and newer / under-signed / wrong keys / older version) incorporated with "
             "update_delegated_targets; in two thirds of the reloaded repositories the top-level targets are edited first (a target replaced by other content, removed, added back; replace-then-remove forced in a third of them); in a fifth of the programs with two or more roles the last role takes the name of an earlier one (under the same parent or elsewhere in the tree); the owner signs with an adequate or an inadequate key set, or with a version / expiration "
-            "missing. If the editor reports success: write, publish every listed target (copy or symlink), load with a fresh "
+            "missing. If the editor reports success: write, publish every listed target through SignedRepository::copy_target / "
+            "link_target with its name (and offer a file with other content - same length for half of the names - under a "
+            "listed name, which must be refused and leave nothing behind), load with a fresh "
             "client, compare versions, every role's targets (length, digest), the delegation tree (names, key ids, thresholds, "
             "versions), download every target, and compare every snapshot / timestamp entry with the written file (length, "
             "SHA-256, version). 120 / 1500 programs.",
